@@ -1070,7 +1070,7 @@ class Cache:
 
             ((rowid, expire_time, filename, value),) = rows
 
-            if expire_time is not None and expire_time < now:
+            if expire_time is not None and expire_time <= now:
                 if default is None:
                     raise KeyError(key)
 
@@ -1585,7 +1585,7 @@ class Cache:
 
                     sql('DELETE FROM Cache WHERE rowid = ?', (rowid,))
 
-                    if db_expire is not None and db_expire < time.time():
+                    if db_expire is not None and db_expire <= time.time():
                         cleanup(name)
                     else:
                         break
@@ -1698,7 +1698,7 @@ class Cache:
                         (rowid, key, db_expire, db_tag, mode, name, db_value),
                     ) = rows
 
-                    if db_expire is not None and db_expire < time.time():
+                    if db_expire is not None and db_expire <= time.time():
                         sql('DELETE FROM Cache WHERE rowid = ?', (rowid,))
                         cleanup(name)
                     else:
@@ -1774,7 +1774,7 @@ class Cache:
                         ),
                     ) = rows
 
-                    if db_expire is not None and db_expire < time.time():
+                    if db_expire is not None and db_expire <= time.time():
                         sql('DELETE FROM Cache WHERE rowid = ?', (rowid,))
                         cleanup(name)
                     else:
